@@ -628,3 +628,154 @@ def rule_std_width(ctx, px, rule_id: str):
     calls = [c for c in ast.walk(nst.node) if isinstance(c, ast.Call) and isinstance(c.func, ast.Name) and c.func.id == sel.name]
     ok = bool(calls) and all(len(c.args) == 1 and ast.unparse(c.args[0]) == f"{tparam}.bit_length" for c in calls)
     ctx.ob(rule_id, pm.rel, f"{nst.short} :: the selector is given the type's own bit_length", ok, "", nst.node.lineno)
+
+
+# ---- saturation of floats keeps non-finite values --------------------------------------------------------------------------
+def _c_scopes(text: str):
+    """[(position of '{', header text before it)] nesting for C-like text; returns a function pos -> list of enclosing headers"""
+    opens = []
+    spans = []     # (start, end, header)
+    for i, ch in enumerate(text):
+        if ch == "{":
+            j = text.rfind(";", 0, i)
+            k = text.rfind("}", 0, i)
+            b = text.rfind("{", 0, i)
+            hdr = text[max(j, k, b) + 1:i].strip()
+            opens.append((i, hdr))
+        elif ch == "}" and opens:
+            st, hdr = opens.pop()
+            spans.append((st, i, hdr))
+
+    def enclosing(pos):
+        return [h for s, e, h in spans if s < pos < e]
+    return enclosing
+
+
+def rule_float_sat(ctx, cd, rule_id: str):
+    """A saturated float narrower than the native type is clamped to the finite range of the wire type - but only if it is finite:
+    +-infinity and NaN have representations of their own and must reach the packer unchanged (clamping infinity to the largest finite
+    value changes the value on the wire)."""
+    import ast
+    import textwrap
+
+    ctx.rule(
+        rule_id,
+        "in every serializer path that emits float saturation, each statement that produces a clamped value from the range bounds "
+        "(assignment of a bound, min/max/clamp with a bound, passing a bound to the emitter) is nested inside a test that the value is "
+        "finite (isfinite / std::isfinite / _np_.isfinite); comparisons against the bounds are free",
+    )
+    n = 0
+    for lang in ("c", "cpp", "py"):
+        t = cd.tmpl(lang, "ser")
+        if not cd.has_macro(lang, "ser", "_serialize_float"):
+            continue
+        for p in cd.paths(lang, "ser", "_serialize_float"):
+            bounds = [name for name, key in p.ph if isinstance(key, str) and "inclusive_value_range" in key]
+            if not bounds:
+                continue
+            label = " & ".join(("" if pol else "not ") + c for c, pol in p.conds if "bit_length" in c or "saturated" in c)[-90:]
+            if lang == "py":
+                txt = textwrap.dedent(p.text.replace("\t", "    "))
+                txt = re.sub(r"\b(Pz\d+z)\.(\d+)\b", r"\1_dot\2", txt)
+                lines = [ln for ln in txt.split("\n")]
+                try:
+                    tree = ast.parse(textwrap.dedent("\n".join(ln for ln in lines if ln.strip())))
+                except SyntaxError:
+                    ind = min((len(ln) - len(ln.lstrip()) for ln in lines if ln.strip()), default=0)
+                    try:
+                        tree = ast.parse("\n".join(ln[ind:] for ln in lines))
+                    except SyntaxError as e:
+                        raise AnalysisError(f"rendered Python of _serialize_float does not parse: {e}")
+                from nvsa import pyfront
+                for st, gd in pyfront.walk_guarded(tree.body, ()):
+                    if isinstance(st, (ast.If, ast.For, ast.While)):
+                        continue
+                    src = ast.unparse(st)
+                    if not any(b in src for b in bounds):
+                        continue
+                    n += 1
+                    terms = pyfront.guard_terms(gd)
+                    ok = any("isfinite(" in e and pol for e, pol in terms)
+                    ctx.ob(rule_id, t.rel, f"py: `{src[:50]}` [{label}] produces a clamped value only for finite input", ok,
+                           "" if ok else f"under {terms}: +-inf (and NaN) are replaced by the finite range bound", None)
+                continue
+            text = cd.text(lang, p)
+            enclosing = _c_scopes(text)
+            for b in bounds:
+                for m in re.finditer(re.escape(b), text):
+                    pos = m.start()
+                    # the statement around the occurrence: from the previous ; { } to the next ; or {
+                    st0 = max(text.rfind(";", 0, pos), text.rfind("{", 0, pos), text.rfind("}", 0, pos)) + 1
+                    nxt = [x for x in (text.find(";", pos), text.find("{", pos)) if x >= 0]
+                    st1 = min(nxt) if nxt else len(text)
+                    stmt = text[st0:st1].strip()
+                    if re.match(r"^(else )?if ?\(", stmt) and text[st1:st1 + 1] == "{":
+                        continue      # a comparison in a branch header
+                    n += 1
+                    hdrs = enclosing(pos)
+                    ok = any(re.search(r"\bisfinite ?\(", h) and not re.search(r"! ?(std::)?isfinite|not (std::)?isfinite", h) for h in hdrs)
+                    ctx.ob(rule_id, t.rel, f"{lang}: `{stmt[:60]}` [{label}] produces a clamped value only for finite input", ok,
+                           "" if ok else f"enclosing blocks {hdrs or 'none'}: +-infinity is replaced by the largest finite value of the wire type "
+                           "(and compares false with nothing to stop it)", None)
+    ctx.floor(rule_id, n, 6)
+
+
+# ---- what the padding macro itself emits -------------------------------------------------------------------------------------
+def rule_pad_body(ctx, cd, which: str, rule_id: str):
+    """The padding macros: the serializer writes zeros into the gap through the bounds-checked primitive (or with a mask that keeps
+    exactly the bits already written) and moves the cursor to the next multiple; the deserializer only rounds the cursor up."""
+    ctx.rule(
+        rule_id,
+        "C/C++ _pad_to_alignment(n): serializer - gap = n - offset % n, zeros written by nunavutSetUxx(.., offset_bits, 0U, gap) / "
+        "padAndMoveToAlignment(n) with the error returned (or a raw masked store whose mask keeps exactly the offset % 8 bits already "
+        "written), then the cursor advanced by the gap; deserializer - the cursor is rounded up to the next multiple of n",
+    )
+    n = 0
+    for lang in ("c", "cpp"):
+        t = cd.tmpl(lang, which)
+        for p in cd.paths(lang, which, "_pad_to_alignment"):
+            text = cd.text(lang, p)
+            if not text.strip():
+                continue      # n <= 1: nothing to pad
+            n += 1
+            nb = p.name_of("n_bits")
+            if which == "des":
+                if lang == "c":
+                    nm1 = p.name_of("(n_bits - 1)")
+                    ok = nm1 is not None and re.search(r"offset_bits = \(offset_bits \+ " + nm1 + r"U\) & ~\(\w+\) ?" + nm1 + r"U;", text) is not None
+                else:
+                    ok = nb is not None and re.search(r"in_buffer\.align_offset_to<" + nb + r"U>\(\);", text) is not None
+                ctx.ob(rule_id, t.rel, f"{lang}: deserializer padding rounds the cursor up to the next multiple of n", ok, "" if ok else f"emits `{text[:120]}`", None)
+                continue
+            if lang == "cpp":
+                m = re.search(r"const auto (\w+) = out_buffer\.padAndMoveToAlignment\(" + (nb or "?") + r"U\);", text)
+                ok = m is not None and re.search(r"if ?\(not " + m.group(1) + r"\) ?\{ return -" + m.group(1) + r"\.error\(\);", text) is not None
+                ctx.ob(rule_id, t.rel, "cpp: serializer padding through padAndMoveToAlignment(n), error returned", ok, "" if ok else f"emits `{text[:160]}`", None)
+                continue
+            # C serializer
+            g = re.search(r"const uint8_t (\w+) = \(uint8_t\) ?\(" + (nb or "?") + r"U - offset_bits % " + (nb or "?") + r"U\);", text)
+            gap = g.group(1) if g else None
+            ctx.ob(rule_id, t.rel, "c: serializer padding: gap = n - offset_bits % n", gap is not None, "" if gap else f"emits `{text[:160]}`", None)
+            if gap is None:
+                continue
+            guarded = re.search(r"if ?\(offset_bits % " + nb + r"U != 0U\) ?\{", text) is not None
+            ctx.ob(rule_id, t.rel, "c: serializer padding: only when the cursor is not aligned (gap in 1..n-1)", guarded, "", None)
+            call = re.search(r"const \w+ (\w+) = nunavutSetUxx\(&buffer\[0\], capacity_bytes, offset_bits, 0U, " + gap + r"\);", text)
+            raw = re.search(r"buffer\[offset_bits / 8U\] ?(=|&=)", text)
+            if call:
+                e = call.group(1)
+                ok = re.search(r"if ?\(" + e + r" < 0\) ?\{ return " + e + r";", text) is not None
+                ctx.ob(rule_id, t.rel, "c: serializer padding: zeros written by the bounds-checked primitive, error returned", ok, "", None)
+            elif raw:
+                # a raw store must keep exactly the low (offset_bits % 8) bits of the current byte and be preceded by a bound test
+                keep_low = re.search(r"& ?\(?\(?\(1U << \(offset_bits % 8U\)\) - 1U\)", text) is not None or \
+                    re.search(r"& ?\(?\(?(0xFFU|255U) >> \(8U - \(?offset_bits % 8U\)?\)", text) is not None
+                bounded = re.search(r"if ?\(\(?offset_bits / 8U\)? >= capacity_bytes\) ?\{ return", text) is not None
+                ctx.ob(rule_id, t.rel, "c: serializer padding: raw store keeps exactly the offset_bits % 8 bits already written and is bounds-checked", keep_low and bounded,
+                       "" if keep_low and bounded else "the mask of the raw store is not ((1U << (offset_bits % 8U)) - 1U) (it clears written data bits or keeps stale ones), "
+                       "or the byte index is not checked against capacity_bytes", None)
+            else:
+                ctx.ob(rule_id, t.rel, "c: serializer padding: zeros are written into the gap", False, "the gap keeps whatever the buffer held", None)
+            adv = re.search(r"offset_bits \+= " + gap + r";", text) is not None
+            ctx.ob(rule_id, t.rel, "c: serializer padding: cursor advanced by the gap", adv, "", None)
+    ctx.floor(rule_id, n, 2)
